@@ -43,6 +43,8 @@ def gen(run):
 
 
 def oracle(c, ans):
+    if c.get("cascade"):
+        return cascade_oracle(c, ans)
     v = c["v"]
     k = answer_kind(ans)
     if k in ("panic", "crash"):
@@ -62,7 +64,41 @@ def oracle(c, ans):
     return problems
 
 
+def cascade_oracle(c, ans):
+    """label-dependent auto-sized pushes: every `%push(L*m + k)` must hold exactly (offset of the
+    sentinel jumpdest after L) * m + k in the assembled bytes, with no leading zero byte unless the
+    layout had to keep an earlier, wider choice (so only exactness is demanded)"""
+    if answer_kind(ans) != "ok":
+        return [f"a well-formed program of auto-sized pushes failed: {ans[:100]}"] if answer_kind(ans) not in ("panic", "crash") else []
+    items = G.decode(answer_bytes(ans))
+    jd = [o for o, code, imm in items if code == 0x5B]
+    if len(jd) != 1:
+        return [f"{len(jd)} sentinels decoded"]
+    pushes = [int.from_bytes(imm, "big") for o, code, imm in items if 0x60 <= code <= 0x7F][:len(c["cascade"])]
+    want = [jd[0] * m + k for m, k in c["cascade"]]
+    if pushes != want:
+        return [f"auto-sized pushes hold {pushes} but the label is at {jd[0]}: exact values are {want}"]
+    return []
+
+
 def check(run):
-    return asmfam.run_family(run, "C07", gen(run), oracle,
-                             "values 256^k-1, 256^k, 256^k+1 for k=0..33, negatives, random; each in up to 11 spellings (4 radices, sum, product, parenthesised, expression macro, macro argument, before/after labels); distinct = distinct sources",
+    from checks import c01
+    cases = gen(run)
+    for prog, order, cat in c01.cascade_programs(run.rng, 30 if run.tier == "thorough" else 14):
+        body = prog[:-1]                                   # without C01's probe
+        exprs = []
+        for o in body:
+            if o[0] == "push":
+                e = o[1]
+                if e[0] == "lbl":
+                    exprs.append((1, 0))
+                elif e[0] == "+" and e[1][0] == "lbl":
+                    exprs.append((1, e[2][1]))
+                elif e[0] == "*":
+                    exprs.append((e[2][1], 0))
+                else:                                          # (L*m)+k
+                    exprs.append((e[1][2][1], e[2][1]))
+        cases.append(mk_case(body, cat, cascade=exprs))
+    return asmfam.run_family(run, "C07", cases, oracle,
+                             "cascades (auto-sized pushes of L*m+k that settle only after several widening rounds: one push growing twice, searched 2-4 push programs needing more rounds than pushes; exact value checked against the decoded position of the label); values 256^k-1, 256^k, 256^k+1 for k=0..33, negatives, random; each in up to 11 spellings (4 radices, sum, product, parenthesised, expression macro, macro argument, before/after labels); distinct = distinct sources",
                              "auto-sized pushes")
